@@ -34,6 +34,8 @@ def oracle(case, line):
         return [("crash", "decoder/encoder crashed or raised a non-input error: " + line[:200])]
     f = parse_fields(line)
     kind, _, body = case.partition(" ")
+    if f.get("c", "").startswith("DEST-DEPENDENT"):
+        return [("decode-depends-on-destination", "the decoded value / flags depend on what the destination Object held before: " + f["c"][:200])]
     if kind == "E":
         toks = body.split()
         tree, _ = G.parse_result_tree(toks, 0)
